@@ -2,7 +2,7 @@
    k = K - 6; B k = 2^(2^K); val is the integer a limb tree denotes; wf = every limb in [0, 2^64);
    thr = __RECINT_THRESHOLD_KARA - 6 (every theorem holds for every threshold). *)
 From Coq Require Import ZArith.
-From C06 Require Import Model ProofsBase ProofsRepr ProofsAdd ProofsBits ProofsShift ProofsMul ProofsKara ProofsMulTop ProofsSubW ProofsDiv ProofsDivTop ProofsDivFinal ProofsProps.
+From C06 Require Import Model ProofsBase ProofsRepr ProofsAdd ProofsBits ProofsShift ProofsMul ProofsKara ProofsMulTop ProofsSubW ProofsDiv ProofsDivTop ProofsDivFinal ProofsModn ProofsSquare ProofsExp ProofsArazi ProofsProps.
 Local Open Scope Z_scope.
 
 Theorem C06_representation : Repr_exact.            Proof. exact repr_exact. Qed.
@@ -63,3 +63,15 @@ Theorem C06_normalization_exact : Norm_exact.       Proof. exact norm_exact. Qed
 Print Assumptions C06_normalization_exact.
 Theorem C06_euclidean_division_exact : Div_exact.   Proof. exact div_exact. Qed.
 Print Assumptions C06_euclidean_division_exact.
+Theorem C06_mod_double_size_exact : Mod_n_exact.    Proof. exact mod_n_exact. Qed.
+Print Assumptions C06_mod_double_size_exact.
+Theorem C06_lsquare_exact : Lsquare_exact.          Proof. exact lsquare_exact. Qed.
+Print Assumptions C06_lsquare_exact.
+Theorem C06_square_truncated_exact : Square_exact.  Proof. exact square_spec. Qed.
+Print Assumptions C06_square_truncated_exact.
+Theorem C06_exp_mod_exact : Exp_mod_exact.          Proof. exact exp_mod_exact. Qed.
+Print Assumptions C06_exp_mod_exact.
+Theorem C06_exp_mod_word_exponent_exact : Exp_mod_word_exact. Proof. exact exp_mod_word_exact. Qed.
+Print Assumptions C06_exp_mod_word_exponent_exact.
+Theorem C06_inverse_mod_power_of_two_exact : Arazi_exact. Proof. exact arazi_exact. Qed.
+Print Assumptions C06_inverse_mod_power_of_two_exact.
